@@ -69,7 +69,12 @@ def run(c):
     rng = c.rng
     t = treegen.generate(rng.fork("tree"), depth=2, tag="c04")
     try:
+        # a large file: sums over many ranges of it leave the 32-bit range
+        t.add_file("/big1m.bin", rng.bytes(1 << 20))
         inputs = build_inputs(c, t, rng)
+        for nspec, spec in ((2100, "0-0"), (1500, "5-6"), (1100, "-1"), (2000, "1-1")):
+            inputs.append(({"route": "static-multirange", "el": "many-ranges-of-a-large-file", "kind": "many-ranges:%d" % nspec},
+                           ("GET /big1m.bin HTTP/1.1\r\nHost: x\r\nRange: bytes=%s\r\n\r\n" % ",".join([spec] * nspec)).encode()))
         for cat in ("a 4xx/5xx for an unparseable request line", "input larger than the request buffer", "ErrApp handler", "engine B: response from the shipped binary"):
             c.need(cat)
         # ---------- Engine A
